@@ -1,5 +1,5 @@
 """C19: the stranger at the front end (worlds/fe.py)"""
-from checks.p_fsm import COMPONENTS as FSM_COMPONENTS
+from checks.common import FSM_COMPONENTS
 
 COMPONENTS = {
     'real': FSM_COMPONENTS['real'] + ['dawgie.fe._static / StaticContent / RoutePoint', 'dawgie.fe.basis.DynamicContent (access check, argument mapping, method table)',
